@@ -444,3 +444,1253 @@ def rule_zdiv(ctx, fn, fvar, points, trees, cop, capi_dunder, floor=20):
     r.positive_control(bool(pv) and all(v[1][1] is False or v[1][1] is None or not v[1][1] for v in pv) and pc_sites and pc_sites[0][2] == {2},
                        'a flag read from DivNode.zerodivision_check (only computed for C types) is false; a raise in a forwarded helper is traced to parameter 3')
     return r
+
+
+# ================================================================================================================= C02-FAST
+# The expanded fast paths (PyLongBinop / PyFloatBinop / PyLongCompare) are walked by an abstract interpreter of the checker over the
+# COMPLETE sign domain of the Python operand X (zero / positive / negative) and of the constant C, every other test forking both ways.
+# Abstract values:  C (the constant),  -C,  f*X (the object's value with a factor f in {+1,-1}),  f*|X| (its magnitude, as read from the digits),
+# L <op> R (an arithmetic result over these), boxed results, parameters op1/op2, booleans, unknown.  Decided for every return that is reached:
+#   OPER   an arithmetic result `L <op> R` returned (or tested, for == / !=) by the fast path has the C operator of the Python operator and its operands
+#          are exactly the left and the right operand of the source expression: the constant where the order says the constant is (CObj: left), the
+#          object's value - with factor +1 - on the other side.  A magnitude that reaches the operation keeps the object's sign (digits are unsigned).
+#   ZERO   a result returned by the "operand is zero" shortcut equals  L <op> R  with X = 0  (reference: the interpreter's own int arithmetic on
+#          sample constants: c, 0, -c, ZeroDivisionError or "not a shortcut").
+#   OBJ    every predicate / accessor of the object operand is applied to op2 for order CObj and to op1 for ObjC, and the entry function tests that
+#          same operand with Py{Long,Float}_CheckExact.
+#   CMP    PyLongCompare returns "equal" exactly when sign(X) == sign(C) and (both are zero or the digit comparison found no difference), and for
+#          identical objects; the unrolled digit comparison for a constant of k+1 digits tests size == k+1 and digit i against bits [i*SHIFT, (i+1)*SHIFT).
+#   PAIR   `inplace ? A : B` selects the PyNumber_InPlace<Op> function for the true branch and PyNumber_<Op> for the false one.
+# REF_COP: Python operator name (C-API PyNumber_<Name>) -> C operator on in-range C integers / doubles.  Source: Python language reference 6.7-6.10 and
+# C11 6.5 (floor division and modulo differ from C for negative operands: their adjustment is decided by C02-SIB / C03-ADJ).
+REF_COP = {'Add': '+', 'Subtract': '-', 'Multiply': '*', 'Remainder': '%', 'TrueDivide': '/', 'FloorDivide': '/', 'Divide': '/',
+           'Or': '|', 'Xor': '^', 'And': '&', 'Rshift': '>>', 'Lshift': '<<', 'Eq': '==', 'Ne': '!='}
+_PYFUNC = {'Add': _operator.add, 'Subtract': _operator.sub, 'Multiply': _operator.mul, 'Remainder': _operator.mod, 'TrueDivide': _operator.truediv,
+           'FloorDivide': _operator.floordiv, 'Or': _operator.or_, 'Xor': _operator.xor, 'And': _operator.and_, 'Rshift': _operator.rshift,
+           'Lshift': _operator.lshift}
+PRED = {'__Pyx_PyLong_IsZero': lambda s: s == 0, '__Pyx_PyLong_IsPos': lambda s: s > 0, '__Pyx_PyLong_IsNeg': lambda s: s < 0,
+        '__Pyx_PyLong_IsNonNeg': lambda s: s >= 0}
+OBJ_VALUE_ACCESSORS = {'__Pyx_PyFloat_AS_DOUBLE', 'PyFloat_AS_DOUBLE', '__Pyx_PyLong_CompactValue', 'PyLong_AsDouble', 'PyLong_AsLong', 'PyFloat_AsDouble'}
+OBJ_OTHER_ACCESSORS = {'__Pyx_PyLong_Digits', '__Pyx_PyLong_DigitCount', '__Pyx_PyLong_IsCompact', 'PyLong_CheckExact', 'PyFloat_CheckExact'}
+BOXERS = {'PyLong_FromLong', 'PyLong_FromLongLong', 'PyFloat_FromDouble', 'PyLong_FromSsize_t'}
+MAX_FAST_PATHS = 6000
+
+
+class _FastGiveUp(Exception):
+    pass
+
+
+def zero_reference(op, order, is_float=False):
+    """class of  L <op> R  when the OBJECT operand is 0, from the interpreter's own arithmetic on sample constants:
+    'c' | 'zero' | 'negc' | 'zerodiv' | 'other'"""
+    f = _PYFUNC.get('TrueDivide' if op == 'Divide' else op)
+    if f is None:
+        return 'other'
+    samples = (1, 3, 17, 40) if op in ('Rshift', 'Lshift') else (1, 3, -5, 1000003, -(2 ** 29))
+    if is_float:
+        samples = (1.5, -2.25, 1e10)
+    kinds = set()
+    for c in samples:
+        l, r = (c, 0) if order == 'CObj' else (0, c)
+        if is_float:
+            try:
+                f(l, r)
+            except ZeroDivisionError:
+                kinds.add('zerodiv')
+            else:
+                kinds.add('other')      # float shortcuts other than the division check are not modelled
+            continue
+        try:
+            v = f(l, r)
+        except ZeroDivisionError:
+            kinds.add('zerodiv')
+            continue
+        except ValueError:
+            kinds.add('other')
+            continue
+        if type(v) is not int:
+            kinds.add('other')
+        elif v == c and c != 0 and v != -c:
+            kinds.add('c')
+        elif v == 0:
+            kinds.add('zero')
+        elif v == -c:
+            kinds.add('negc')
+        else:
+            kinds.add('other')
+    return kinds.pop() if len(kinds) == 1 else 'other'
+
+
+class FastWalk:
+    """abstract walk of one expanded C function for one scenario"""
+
+    def __init__(self, fname, params, tree, op, order, objsign, csign, objparam=None):
+        self.fname, self.tree, self.op, self.order = fname, tree, op, order
+        self.objsign, self.csign = objsign, csign           # -1 / 0 / +1 each
+        self.pyval = 'op2' if order == 'CObj' else 'op1'
+        self.objparam = objparam or self.pyval               # the parameter that holds the object operand in this function
+        self.params = params
+        self.problems = {}
+        self.events = []
+        self.paths = 0
+        self.is_float = False
+
+    # ---------------------------------------------------------------------------------------------------- abstract values
+    def problem(self, key, msg):
+        self.problems.setdefault(key, msg)
+
+    def objval(self, f=1):
+        return ('x', f)
+
+    def norm(self, v):
+        if v[0] == 'm':
+            if self.objsign == 0:
+                return ('x', 1)
+            return ('x', v[1] * self.objsign)
+        return v
+
+    def is_const(self, v):
+        return v[0] in ('c', 'negc')
+
+    def is_obj(self, v):
+        return v[0] in ('x', 'm')
+
+    def check_obj_arg(self, name, arg, st):
+        a = self.strip(arg)
+        if a[0] == 'id' and a[1] in ('op1', 'op2', 'float_val'):
+            if a[1] != self.objparam:
+                self.problem('obj:%s(%s)' % (name, a[1]),
+                             '%s applies %s to %s, but for order %s the Python object operand is %s (the other parameter holds the constant as an object)'
+                             % (self.fname, name, a[1], self.order, self.objparam))
+
+    def strip(self, e):
+        from . import pC15 as X
+        return X.strip_wrappers(e)
+
+    # ---------------------------------------------------------------------------------------------------- expressions
+    def ev(self, e, st):
+        """-> abstract value (no forking inside expressions: unknown sub-conditions give 'unk')"""
+        from . import pC15 as X
+        e = self.strip(e)
+        k = e[0]
+        if k == 'num':
+            return ('int', e[1])
+        if k == 'str':
+            return ('unk',)
+        if k == 'id':
+            n = e[1]
+            if n in st:
+                return st[n]
+            if n in ('intval', 'floatval'):
+                return ('c',)
+            if n in ('op1', 'op2', 'float_val'):
+                return ('ref', n)
+            if n == 'NULL':
+                return ('null',)
+            return ('unk',)
+        if k == 'un':
+            v = self.ev(e[2], st)
+            if e[1] == '-':
+                if v[0] == 'c':
+                    return ('negc',)
+                if v[0] == 'negc':
+                    return ('c',)
+                if v[0] in ('x', 'm'):
+                    return (v[0], -v[1])
+                if v[0] == 'int' and v[1] is not None:
+                    return ('int', -v[1])
+                return ('unk',)
+            if e[1] == '!':
+                if v[0] == 'bool':
+                    return ('bool', not v[1])
+                if v[0] == 'int' and v[1] is not None:
+                    return ('bool', v[1] == 0)
+                return ('unk',)
+            if e[1] == '&':
+                return ('unk',)
+            return ('unk',)
+        if k == 'idx':
+            b = self.ev(e[1], st)
+            if b[0] == 'digits':
+                return ('m', 1)
+            return ('unk',)
+        if k == 'mem':
+            return ('unk',)
+        if k == 'tern':
+            c = self.ev(e[1], st)
+            a, b = self.ev(e[2], st), self.ev(e[3], st)
+            if c[0] == 'bool':
+                return a if c[1] else b
+            if a == b:
+                return a
+            return ('unk',)
+        if k == 'call':
+            fn = e[1]
+            name = fn[1] if fn[0] == 'id' else (fn[3] if fn[0] == 'mem' else None)
+            args = e[2]
+            if name in PRED and len(args) == 1:
+                self.check_obj_arg(name, args[0], st)
+                return ('bool', PRED[name](self.objsign))
+            if name in OBJ_VALUE_ACCESSORS and len(args) == 1:
+                self.check_obj_arg(name, args[0], st)
+                return ('x', 1)
+            if name == '__Pyx_PyLong_Digits' and len(args) == 1:
+                self.check_obj_arg(name, args[0], st)
+                return ('digits',)
+            if name in OBJ_OTHER_ACCESSORS and len(args) >= 1:
+                self.check_obj_arg(name, args[0], st)
+                return ('unk',)
+            if name == '__imported_pylong_join':
+                return ('m', 1)
+            if name in BOXERS and len(args) == 1:
+                return ('box', self.ev(args[0], st))
+            if name in ('__Pyx_NewRef', 'Py_NewRef') and len(args) == 1:
+                v = self.ev(args[0], st)
+                if v[0] == 'ref':
+                    return ('box', ('x', 1) if v[1] == self.objparam else ('c',))
+                return ('unk',)
+            if name == 'fmod' and len(args) == 2:
+                return self.arith('%', self.ev(args[0], st), self.ev(args[1], st))
+            if name in ('labs', 'fabs', 'llabs', 'copysign', 'sizeof'):
+                return ('unk',)
+            if name is not None and (name.startswith('nb_') or name.startswith('PyNumber_') or name.startswith('__Pyx_Fallback_') or name in (
+                    'PyObject_RichCompare', '__Pyx_PyObject_RichCompareBool', 'PyObject_RichCompareBool', 'tp_richcompare')
+                    or name.startswith('__Pyx_PyNumber_')):
+                refs = [self.ev(a, st) for a in args[:2]]
+                names = [r[1] for r in refs if r[0] == 'ref']
+                if names == ['op2', 'op1'] and self.op not in ('Eq', 'Ne'):
+                    self.problem('generic:%s' % name, '%s hands the operands to the generic %s in the order (op2, op1): a non-commutative operator is computed the wrong way round' % (self.fname, name))
+                return ('generic', name)
+            if fn[0] == 'tern':
+                # (inplace ? PyNumber_InPlaceX : PyNumber_X)(op1, op2)
+                return ('generic', 'ternary')
+            if name in ('__Pyx_PyObject_IsTrueAndDecref',):
+                return ('generic', name)
+            if name is not None and name.startswith('__Pyx_Unpacked_') or (name is not None and name.startswith('__Pyx_Float_')):
+                return ('forward', name)
+            return ('unk',)
+        if k == 'bin':
+            op = e[1]
+            a, b = self.ev(e[2], st), self.ev(e[3], st)
+            if op in ('&&', '||'):
+                if a[0] == 'bool' and b[0] == 'bool':
+                    return ('bool', (a[1] and b[1]) if op == '&&' else (a[1] or b[1]))
+                if op == '&&' and (a == ('bool', False) or b == ('bool', False)):
+                    return ('bool', False)
+                if op == '||' and (a == ('bool', True) or b == ('bool', True)):
+                    return ('bool', True)
+                return ('unk',)
+            if op in ('==', '!=', '<', '<=', '>', '>='):
+                r = self.compare(op, a, b, e)
+                return r
+            return self.arith(op, a, b)
+        if k == 'assign':
+            return self.assign(e, st)
+        if k == 'post':
+            return ('unk',)
+        if k == 'comma':
+            self.ev(e[1], st)
+            return self.ev(e[2], st)
+        if k == 'sizeof':
+            return ('unk',)
+        return ('unk',)
+
+    def arith(self, op, a, b):
+        if op in ('+', '-', '*', '/', '%', '|', '^', '&', '<<', '>>'):
+            ca, cb = self.is_const(a), self.is_const(b)
+            oa, ob = self.is_obj(a), self.is_obj(b)
+            if (ca and ob) or (oa and cb):
+                return ('op', op, self.norm(a), self.norm(b))
+            if op == '*' and ((a == ('int', -1) and (oa or ob)) or (b == ('int', -1) and oa)):
+                v = a if oa else b
+                return (v[0], -v[1])
+            if a[0] == 'int' and b[0] == 'int' and a[1] is not None and b[1] is not None and op in ('+', '-', '*'):
+                return ('int', {'+': a[1] + b[1], '-': a[1] - b[1], '*': a[1] * b[1]}[op])
+            if a[0] in ('op', 'opadj'):
+                return ('opadj',) + a[1:]
+        return ('unk',)
+
+    def compare(self, op, a, b, e):
+        sign_of = {'c': self.csign}
+        if a[0] == 'c' and b[0] == 'int' and b[1] == 0 and self.csign is not None:
+            s = self.csign
+            return ('bool', {'==': s == 0, '!=': s != 0, '<': s < 0, '<=': s <= 0, '>': s > 0, '>=': s >= 0}[op])
+        if b[0] == 'c' and a[0] == 'int' and a[1] == 0 and self.csign is not None:
+            s = -self.csign
+            return ('bool', {'==': s == 0, '!=': s != 0, '<': s < 0, '<=': s <= 0, '>': s > 0, '>=': s >= 0}[op])
+        if a[0] == 'int' and b[0] == 'int' and a[1] is not None and b[1] is not None:
+            return ('bool', {'==': a[1] == b[1], '!=': a[1] != b[1], '<': a[1] < b[1], '<=': a[1] <= b[1], '>': a[1] > b[1], '>=': a[1] >= b[1]}[op])
+        if a[0] == 'bool' and b[0] == 'int' and b[1] in (0, 1) and op in ('==', '!='):
+            r = a[1] == bool(b[1])
+            return ('bool', r if op == '==' else not r)
+        if b[0] == 'int' and b[1] == 0 and a[0] == 'x' and self.objsign is not None and op in ('<', '<=', '>', '>='):
+            sg = self.objsign * a[1]
+            return ('bool', {'<': sg < 0, '<=': sg <= 0, '>': sg > 0, '>=': sg >= 0}[op])
+        if a[0] == 'ref' and b[0] == 'ref' and op in ('==', '!='):
+            return ('atom', 'identical', op == '==')
+        if op in ('==', '!=') and b[0] == 'int' and b[1] in (0, None) and self.is_obj(a):
+            return ('atom', 'obj-is-zero', op == '==')
+        if op in ('==', '!=') and b[0] == 'int' and b[1] in (0, None) and a[0] == 'c' and self.csign is None:
+            return ('atom', 'const-is-zero', op == '==')
+        if op in ('==', '!=') and ((self.is_const(a) and self.is_obj(b)) or (self.is_obj(a) and self.is_const(b))):
+            return ('op', op, self.norm(a), self.norm(b))
+        if a[0] == 'atomval' and b[0] == 'int' and b[1] in (0, 1) and op in ('==', '!='):
+            # `unequal == 0`
+            return ('atom', a[1], (op == '==') == bool(b[1]))
+        return ('unk',)
+
+    def assign(self, e, st):
+        op, l, r = e[1], self.strip(e[2]), e[3]
+        v = self.ev(r, st)
+        if l[0] != 'id':
+            return ('unk',)
+        name = l[1]
+        cur = st.get(name, ('unk',))
+        if op == '=':
+            st[name] = self.named(name, v, r)
+        elif op == '*=' and v == ('int', -1) and cur[0] in ('x', 'm'):
+            st[name] = (cur[0], -cur[1])
+        elif op in ('+=', '-=', '*=', '/=', '%=', '|=', '&=', '^=', '<<=', '>>=') and cur[0] in ('op', 'opadj'):
+            if op == '+=' and cur[0] == 'op' and cur[1] == '%':
+                self.check_mod_adjust(name, r, st)
+            st[name] = ('opadj',) + cur[1:]
+        else:
+            st[name] = ('unk',)
+        return st[name]
+
+    def check_mod_adjust(self, xname, rhs, st):
+        """x = L % R (C remainder, sign of L);  x += <rhs>  must add R exactly when x != 0 and sign(x) != sign(R)  (Python's modulo has the sign of the divisor)."""
+        from . import pC15 as X
+        roles = {}
+        for n in X.c_ids(rhs):
+            v = st.get(n)
+            if n == xname:
+                roles[n] = 'x'
+            elif v is not None and self.is_const(v):
+                roles[n] = 'C'
+            elif v is not None and self.is_obj(v):
+                roles[n] = 'O'
+            elif n in ('likely', 'unlikely'):
+                continue
+            else:
+                return          # mentions something else: not a sign predicate of the operands
+        right = 'O' if self.order == 'CObj' else 'C'
+        self.events.append(('mod-adjust', 1))
+        guard_nonzero = any(k == '?' + repr(('id', xname)) and v for k, v in getattr(self, 'cur_atoms', {}).items())
+
+        def evaluate(e, env):
+            e = self.strip(e)
+            k = e[0]
+            if k == 'num':
+                return e[1]
+            if k == 'id':
+                return env[e[1]]
+            if k == 'un':
+                v = evaluate(e[2], env)
+                return {'!': int(not v), '-': -v, '~': ~v, '+': v}[e[1]]
+            if k == 'bin':
+                a, b = evaluate(e[2], env), evaluate(e[3], env)
+                f = {'+': lambda: a + b, '-': lambda: a - b, '*': lambda: a * b, '<': lambda: int(a < b), '>': lambda: int(a > b), '<=': lambda: int(a <= b),
+                     '>=': lambda: int(a >= b), '==': lambda: int(a == b), '!=': lambda: int(a != b), '&': lambda: a & b, '|': lambda: a | b, '^': lambda: a ^ b,
+                     '&&': lambda: int(bool(a) and bool(b)), '||': lambda: int(bool(a) or bool(b))}.get(e[1])
+                if f is None:
+                    raise KeyError(e[1])
+                return f()
+            raise KeyError(k)
+        for sx in ((-1, 1) if guard_nonzero else (-1, 0, 1)):
+            for sr in (-1, 1):
+                for sl in (-1, 0, 1):
+                    vals = {'x': 2 * sx, 'C': None, 'O': None}
+                    rv, lv = 5 * sr, 3 * sl
+                    vals[right] = rv
+                    vals['C' if right == 'O' else 'O'] = lv
+                    env = {n: vals[role] for n, role in roles.items()}
+                    try:
+                        got = evaluate(rhs, env)
+                    except (KeyError, TypeError):
+                        return
+                    want = rv if (sx != 0 and (sx < 0) != (sr < 0)) else 0
+                    if got != want:
+                        self.problem('modadj', '%s: after `x = left %% right` the floor adjustment `x += %s` adds %s when the remainder is %s and the divisor (right operand) is %s '
+                                     '(left operand %s); Python\'s %% requires %s: the result has the sign of the wrong operand' % (
+                                         self.fname, X.c_text(self.strip(rhs))[:70], got, {-1: 'negative', 0: 'zero', 1: 'positive'}[sx],
+                                         {-1: 'negative', 1: 'positive'}[sr], {-1: 'negative', 0: 'zero', 1: 'positive'}[sl], want))
+                        return
+
+    def named(self, name, v, rhs):
+        from . import pC15 as X
+        if name == 'unequal' or (v[0] == 'unk' and re.search(r'\bdigits\b', X.c_text(rhs)) and re.search(r'!=', X.c_text(rhs))):
+            return ('atomval', 'digits-differ')
+        return v
+
+    # ---------------------------------------------------------------------------------------------------- statements
+    def run(self):
+        body = self.tree
+        self.top = body[1]
+        self.labels = {s[1]: i for i, s in enumerate(self.top) if s[0] == 'label'}
+        self.results = []
+        self._exec_from(0, {}, {})
+        return self.results
+
+    def _exec_from(self, idx, st, atoms):
+        todo = [(idx, st, atoms)]
+        while todo:
+            i, s, a = todo.pop()
+            outs = self.exec_list(self.top[i:], s, a)
+            for kind, payload, s2, a2 in outs:
+                if kind == 'goto':
+                    if payload not in self.labels:
+                        raise _FastGiveUp('goto %s: label not at function level' % payload)
+                    todo.append((self.labels[payload], s2, a2))
+                elif kind == 'fall':
+                    self.finish(('fall',), s2, a2)
+
+    def finish(self, ret, st, atoms):
+        self.paths += 1
+        if self.paths > MAX_FAST_PATHS:
+            raise _FastGiveUp('more than %d paths' % MAX_FAST_PATHS)
+        self.results.append((ret, dict(atoms), st.get('__zero__', False), st.get('__raised__')))
+
+    def exec_list(self, stmts, st, atoms):
+        """-> [(kind 'fall'|'goto', payload, state, atoms)]; returns are recorded through finish()"""
+        cur = [(st, atoms)]
+        escapes = []
+        for s in stmts:
+            nxt = []
+            for st1, at1 in cur:
+                for kind, payload, st2, at2 in self.exec_stmt(s, st1, at1):
+                    if kind == 'fall':
+                        nxt.append((st2, at2))
+                    else:
+                        escapes.append((kind, payload, st2, at2))
+            cur = nxt
+            if not cur:
+                break
+        return [('fall', None, s1, a1) for s1, a1 in cur] + escapes
+
+    def exec_stmt(self, s, st, atoms):
+        from . import pC15 as X
+        k = s[0]
+        self.cur_atoms = atoms
+        if k == 'block':
+            return self.exec_list(s[1], st, atoms)
+        if k == 'label':
+            return [('fall', None, st, atoms)]
+        if k == 'goto':
+            return [('goto', s[1], st, atoms)]
+        if k == 'decl':
+            st = dict(st)
+            for name, init, typ in s[1]:
+                if init is None:
+                    st[name] = ('unk',)
+                else:
+                    st[name] = self.named(name, self.ev(init, st), init)
+            return [('fall', None, st, atoms)]
+        if k == 'expr':
+            st = dict(st)
+            e = self.strip(s[1])
+            if e[0] == 'id' and e[1] in ('Py_RETURN_TRUE', 'Py_RETURN_FALSE'):
+                self.finish(('bool', e[1] == 'Py_RETURN_TRUE'), st, atoms)
+                return []
+            if e[0] == 'call' and e[1][0] == 'id' and e[1][1] in ('PyErr_SetString', 'PyErr_Format', 'PyErr_SetObject'):
+                exc = X.c_text(e[2][0]) if e[2] else '?'
+                st['__raised__'] = exc
+                if 'ZeroDivision' in exc and not st.get('__zero__'):
+                    self.events.append(('zerodiv-raise', 1))
+                    # the operand tested for zero must be the divisor = the right operand of the source expression
+                    div_is_obj = self.order == 'CObj'
+                    ok = atoms.get('obj-is-zero') is True if div_is_obj else atoms.get('const-is-zero') is True
+                    if self.objsign == 0 and div_is_obj:
+                        ok = ok or True
+                    if not ok:
+                        self.problem('zerodiv:operand', '%s raises ZeroDivisionError on a path where the DIVISOR (the %s, for order %s) was not tested for zero (tested: %s): '
+                                     '`c / 0.0` divides in C and a zero constant would raise instead' % (
+                                         self.fname, 'object operand' if div_is_obj else 'constant', self.order,
+                                         ', '.join(k for k in ('obj-is-zero', 'const-is-zero') if atoms.get(k)) or 'nothing'))
+                return [('fall', None, st, atoms)]
+            self.ev(s[1], st)
+            return [('fall', None, st, atoms)]
+        if k == 'return':
+            st = dict(st)
+            v = self.ev(s[1], st) if s[1] is not None else ('void',)
+            if v[0] in ('op',) and v[1] in ('==', '!='):
+                # return (a == b);
+                self.check_operation(v, st)
+                for truth in (True, False):
+                    a2 = dict(atoms)
+                    a2['equal-values'] = truth if v[1] == '==' else not truth
+                    self.finish(('bool', truth), st, a2)
+                return []
+            if v[0] == 'atom':
+                for truth in (True, False):
+                    if atoms.get(v[1], truth) != truth and v[1] in atoms:
+                        continue
+                    a2 = dict(atoms)
+                    a2[v[1]] = truth
+                    self.finish(('bool', truth == v[2]), st, a2)
+                return []
+            self.check_return(v, st)
+            self.finish(v, st, atoms)
+            return []
+        if k == 'if':
+            out = []
+            for truth, st2, at2 in self.branch(s[1], st, atoms):
+                st3 = dict(st2)
+                zero_test = self.is_zero_test(s[1])
+                if zero_test and truth:
+                    st3['__zero__'] = True
+                if truth:
+                    out += self.exec_stmt(s[2], st3, at2)
+                elif s[3] is not None:
+                    out += self.exec_stmt(s[3], st3, at2)
+                else:
+                    out.append(('fall', None, st3, at2))
+            # leaving the if statement ends the zero block
+            res = []
+            for kind, payload, s4, a4 in out:
+                if s4.get('__zero__') and not st.get('__zero__'):
+                    s4 = dict(s4)
+                    s4['__zero__'] = False
+                res.append((kind, payload, s4, a4))
+            return res
+        raise _FastGiveUp('statement kind %s' % k)
+
+    def is_zero_test(self, cond):
+        c = self.strip(cond)
+        return c[0] == 'call' and c[1][0] == 'id' and c[1][1] == '__Pyx_PyLong_IsZero'
+
+    def branch(self, cond, st, atoms):
+        from . import pC15 as X
+        st = dict(st)
+        c0 = self.strip(cond)
+        if c0[0] == 'bin' and c0[1] in ('&&', '||'):
+            out = []
+            for ta, sa, aa in self.branch(c0[2], st, atoms):
+                if ta == (c0[1] == '&&'):
+                    out += self.branch(c0[3], sa, aa)
+                else:
+                    out.append((ta, sa, aa))
+            return out
+        if c0[0] == 'un' and c0[1] == '!':
+            return [(not t, s_, a_) for t, s_, a_ in self.branch(c0[2], st, atoms)]
+        v = self.ev(cond, st)
+        if v[0] == 'bool':
+            return [(v[1], st, atoms)]
+        if v[0] == 'int' and v[1] is not None:
+            return [(v[1] != 0, st, atoms)]
+        if v[0] == 'op' and v[1] in ('==', '!='):
+            self.check_operation(v, st)
+            out = []
+            for truth in (True, False):
+                eq = truth if v[1] == '==' else not truth
+                if atoms.get('equal-values', eq) != eq:
+                    continue
+                a2 = dict(atoms)
+                a2['equal-values'] = eq
+                out.append((truth, dict(st), a2))
+            return out
+        if v[0] == 'atom':
+            out = []
+            for truth in (True, False):
+                val = truth if v[2] else not truth
+                if v[1] in atoms and atoms[v[1]] != val:
+                    continue
+                a2 = dict(atoms)
+                a2[v[1]] = val
+                out.append((truth, dict(st), a2))
+            return out
+        key = '?' + repr(self.strip(cond))          # the AST itself: c_text() abbreviates sizeof(...) and would merge distinct tests
+        if key in atoms:
+            return [(atoms[key], st, atoms)]
+        out = []
+        for truth in (True, False):
+            a2 = dict(atoms)
+            a2[key] = truth
+            out.append((truth, dict(st), a2))
+        return out
+
+    # ---------------------------------------------------------------------------------------------------- obligations
+    def left_right(self):
+        return (('c',), ('x', 1)) if self.order == 'CObj' else (('x', 1), ('c',))
+
+    def check_operation(self, v, st):
+        _, cop, l, r = v[:4]
+        want = REF_COP.get(self.op)
+        self.events.append(('operation', cop))
+        if want is not None and cop != want and not (cop in ('==', '!=') and self.op in ('Eq', 'Ne')):
+            self.problem('oper:operator', '%s computes `left %s right` for the Python operator %s (C operator %s expected): the fast path returns the result of a different operation'
+                         % (self.fname, cop, self.op, want))
+        wl, wr = self.left_right()
+
+        def show(x):
+            return {'c': 'the constant', 'negc': 'minus the constant', 'x': 'the object\'s value' if x[0] == 'x' and x[1] == 1 else 'MINUS the object\'s value'}.get(x[0], repr(x))
+        if self.objsign == 0:
+            l = ('x', 1) if l[0] == 'x' else l
+            r = ('x', 1) if r[0] == 'x' else r
+        if (l, r) != (wl, wr) and cop in ('+', '*', '&', '|', '^', '==', '!=') and (r, l) == (wl, wr):
+            return          # commutative on C integers / doubles: the operand order is immaterial
+        if (l, r) != (wl, wr):
+            if l[0] == wr[0] and r[0] == wl[0]:
+                self.problem('oper:operands', '%s computes `%s %s %s` for order %s: the operands of `%s` are exchanged (the constant is the %s operand of the source expression)'
+                             % (self.fname, show(l), cop, show(r), self.order, cop, 'left' if self.order == 'CObj' else 'right'))
+            else:
+                self.problem('oper:sign', '%s computes `%s %s %s` when the object is %s: the value unpacked from the digits has the wrong sign (digits hold the magnitude; the sign '
+                             'has to be applied exactly when the object is negative)' % (self.fname, show(l), cop, show(r), {1: 'positive', -1: 'negative', 0: 'zero'}[self.objsign]))
+
+    def check_return(self, v, st):
+        if v[0] == 'box' and self.op == 'Rshift' and v[1][0] == 'int' and v[1][1] is not None and not st.get('__zero__'):
+            # a literal result of `left >> right`: only the saturated shift (count >= width) has one - Python: -1 for a negative left operand, else 0
+            left = self.csign if self.order == 'CObj' else self.objsign
+            if left is not None:
+                self.events.append(('shift-saturation', 1))
+                want = -1 if left < 0 else 0
+                if v[1][1] != want:
+                    self.problem('rshift:saturated', '%s returns the constant %d for a shift by at least the width of the C type when the left operand is %s; Python\'s >> '
+                                 'floors: the result is %d' % (self.fname, v[1][1], {-1: 'negative', 0: 'zero', 1: 'positive'}[left], want))
+        if v[0] == 'box':
+            inner = v[1]
+            if inner[0] in ('op', 'opadj'):
+                self.check_operation(inner, st)
+            if st.get('__zero__'):
+                self.check_zero(inner, st)
+        elif v[0] == 'null' and st.get('__zero__'):
+            self.check_zero(('raised', st.get('__raised__')), st)
+        elif v[0] in ('op', 'opadj'):
+            self.check_operation(v, st)
+
+    def check_zero(self, inner, st):
+        want = zero_reference(self.op, self.order, self.is_float)
+        if inner[0] == 'raised':
+            got = 'zerodiv' if inner[1] and 'ZeroDivision' in inner[1] else 'other'
+        elif inner[0] == 'c':
+            got = 'c'
+        elif inner[0] == 'negc':
+            got = 'negc'
+        elif inner[0] == 'x' or inner == ('int', 0):
+            got = 'zero'
+        else:
+            got = 'other'
+        self.events.append(('zero-shortcut', got))
+        if got != want:
+            names = {'c': 'the constant', 'negc': 'minus the constant', 'zero': 'zero (the object operand)', 'zerodiv': 'ZeroDivisionError', 'other': 'no shortcut (a different value)'}
+            l, r = ('c', '0') if self.order == 'CObj' else ('0', 'c')
+            self.problem('zero:%s' % got, '%s: for a zero object operand the shortcut yields %s, but `%s %s %s` is %s' % (
+                self.fname, names.get(got, got), l, {'Add': '+', 'Subtract': '-', 'Multiply': '*', 'Remainder': '%', 'TrueDivide': '/', 'FloorDivide': '//', 'Or': '|',
+                                                    'Xor': '^', 'And': '&', 'Rshift': '>>', 'Lshift': '<<'}.get(self.op, self.op), r, names[want]))
+
+
+_PP_LINE = re.compile(r'^[ \t]*#[ \t]*(if|ifdef|ifndef|elif|else|endif)\b(.*)$')
+
+
+def _pp_texts(body):
+    """[(configuration text, body without preprocessor lines)]: every #if / #elif condition TEXT is one boolean atom (conditions with arithmetic such as
+    `PyLong_SHIFT * 4 < SIZEOF_LONG*8` are not evaluated); all assignments are enumerated, equal results merged.  Over-approximates the real configurations."""
+    import itertools
+    body = re.sub(r'\\[ \t]*\n', ' ', body)            # continuation lines of preprocessor conditions
+    lines = body.split('\n')
+    atoms = []
+    for ln in lines:
+        m = _PP_LINE.match(ln)
+        if m and m.group(1) in ('if', 'ifdef', 'ifndef', 'elif'):
+            c = ' '.join(m.group(2).split())
+            if m.group(1) in ('ifdef', 'ifndef'):
+                c = 'defined(%s)' % c
+            if c not in atoms:
+                atoms.append(c)
+    if len(atoms) > 8:
+        raise _FastGiveUp('%d preprocessor conditions in one function' % len(atoms))
+    seen, out = set(), []
+    for bits in itertools.product((True, False), repeat=len(atoms)):
+        val = dict(zip(atoms, bits))
+        keep, stack = [], []            # stack entries: [some branch taken already, this branch active]
+        for ln in lines:
+            m = _PP_LINE.match(ln)
+            if not m:
+                keep.append(ln if all(x[1] for x in stack) else '')
+                continue
+            keep.append('')
+            d = m.group(1)
+            c = ' '.join(m.group(2).split())
+            if d in ('if', 'ifdef', 'ifndef'):
+                if d != 'if':
+                    c = 'defined(%s)' % c
+                t = val[c] if d != 'ifndef' else not val[c]
+                stack.append([t, t])
+            elif d == 'elif':
+                if not stack:
+                    raise _FastGiveUp('#elif without #if')
+                if stack[-1][0]:
+                    stack[-1][1] = False
+                else:
+                    stack[-1] = [val[c], val[c]]
+            elif d == 'else':
+                if not stack:
+                    raise _FastGiveUp('#else without #if')
+                stack[-1] = [True, not stack[-1][0]]
+            else:
+                if not stack:
+                    raise _FastGiveUp('#endif without #if')
+                stack.pop()
+        t = '\n'.join(keep)
+        k = re.sub(r'\s+', ' ', t)
+        if k not in seen:
+            seen.add(k)
+            out.append((' '.join('%s=%d' % (a[:30], val[a]) for a in atoms), t))
+    return out
+
+
+def fast_functions(text):
+    """functions of an expanded template section -> {name: (param names, body text incl. braces)}"""
+    t = strip_c_comments(text)
+    out = {}
+    for name, (params, b0, b1) in c_functions(t).items():
+        out[name] = ([_pname(p) for p in params], t[b0:b1 + 1])
+    return out
+
+
+def walk_function(fname, params, body, op, order, scenarios, objparam=None, is_float=False):
+    """-> (problems {key: msg}, events set, number of paths, results [(scenario, ret, atoms, in zero block, raised)])"""
+    from . import pC15 as X
+    problems, events, paths, results = {}, set(), 0, []
+    for cfg, text in _pp_texts(body):
+        # integer widths play no role in the sign domain: the long long twin of a variable is just another C integer
+        text = re.sub(r'(?<!sizeof\()(?<!sizeof \()\bPY_LONG_LONG\b', 'long', text)
+        try:
+            tree = X.parse_c_function_body(text)
+        except AnalysisError as e:
+            raise _FastGiveUp('%s [%s]: %s' % (fname, cfg, e))
+        for objsign, csign in scenarios:
+            w = FastWalk(fname, params, tree, op, order, objsign, csign, objparam)
+            w.is_float = is_float
+            for ret, atoms, zero, raised in w.run():
+                results.append(((objsign, csign), ret, atoms, zero, raised))
+            for k, m in w.problems.items():
+                problems.setdefault(k, m + (' [%s]' % cfg if cfg else ''))
+            events |= set(w.events)
+            paths += w.paths
+    return problems, events, paths, results
+
+
+def compare_problems(fname, results, op):
+    """PyLongCompare decision table: -> {key: message}"""
+    probs = {}
+    for (objsign, csign), ret, atoms, zero, raised in results:
+        if ret[0] != 'bool':
+            continue            # generic rich comparison fallback
+        if any(k.startswith('?') and 'CheckExact' in k and not v for k, v in atoms.items()):
+            pass
+        identical = atoms.get('identical')
+        differ = atoms.get('digits-differ')
+        eqv = atoms.get('equal-values')
+        if identical:
+            equal = True
+        elif eqv is not None:
+            equal = eqv
+        elif csign is None:
+            continue
+        elif objsign != csign:
+            if differ is False and 0 in (objsign, csign):
+                continue        # infeasible: zero has no digits, a non-zero constant has at least one - the digit counts differ
+            equal = False
+        elif objsign == 0:
+            equal = True
+        elif differ is None:
+            continue            # decided before the magnitudes were compared although the signs agree: only possible on generic paths
+        else:
+            equal = not differ
+        want = equal if op == 'Eq' else not equal
+        if ret[1] != want:
+            what = 'identical objects' if identical else 'object %s, constant %s%s' % (
+                {0: 'zero', 1: 'positive', -1: 'negative'}[objsign], {0: 'zero', 1: 'positive', -1: 'negative', None: '?'}[csign],
+                '' if differ is None else (', digits differ' if differ else ', digits equal'))
+            probs.setdefault('cmp:%s' % what.replace(' ', '-'), '%s returns %s for %s, where `x %s c` is %s' % (fname, ret[1], what, '==' if op == 'Eq' else '!=', want))
+    return probs
+
+
+def digit_compare_problems(fname, body):
+    """the unrolled `unequal = (size != N) || digits[0] != (uintval & MASK) | digits[i] != ((uintval >> (i * SHIFT)) & MASK)` blocks -> (instances, {key: msg})"""
+    from . import pC15 as X
+    inst, probs = [], {}
+    t = re.sub(r'^[ \t]*#.*$', '', body, flags=re.M)
+    for m in re.finditer(r'\bunequal\s*=(?!=)\s*([^;]+);', t):
+        try:
+            e = X.CParser(m.group(1) + ' ;').expr()
+        except AnalysisError:
+            probs.setdefault('digits:unparsable', '%s: the digit comparison `%s` cannot be parsed' % (fname, ' '.join(m.group(1).split())[:80]))
+            continue
+        sizes, digs = [], []
+
+        def rec(x):
+            x = X.strip_wrappers(x)
+            if x[0] == 'bin' and x[1] in ('||', '|'):
+                rec(x[2])
+                rec(x[3])
+                return
+            if x[0] == 'bin' and x[1] == '!=':
+                l, r = X.strip_wrappers(x[2]), X.strip_wrappers(x[3])
+                if l == ('id', 'size') and r[0] == 'num':
+                    sizes.append(r[1])
+                    return
+                if l[0] == 'idx' and X.strip_wrappers(l[1]) == ('id', 'digits') and X.strip_wrappers(l[2])[0] == 'num':
+                    i = X.strip_wrappers(l[2])[1]
+                    # right side: (uintval & MASK)  or  ((uintval >> (k * PyLong_SHIFT)) & MASK)
+                    shift = None
+                    r2 = r
+                    if r2[0] == 'bin' and r2[1] == '&':
+                        inner = X.strip_wrappers(r2[2])
+                        if inner == ('id', 'uintval'):
+                            shift = 0
+                        elif inner[0] == 'bin' and inner[1] == '>>' and X.strip_wrappers(inner[2]) == ('id', 'uintval'):
+                            sh = X.strip_wrappers(inner[3])
+                            if sh[0] == 'bin' and sh[1] == '*':
+                                a, b = X.strip_wrappers(sh[2]), X.strip_wrappers(sh[3])
+                                n = a[1] if a[0] == 'num' else (b[1] if b[0] == 'num' else None)
+                                o = b if a[0] == 'num' else a
+                                if n is not None and o == ('id', 'PyLong_SHIFT'):
+                                    shift = n
+                            elif sh == ('id', 'PyLong_SHIFT'):
+                                shift = 1
+                    digs.append((i, shift))
+                    return
+            probs.setdefault('digits:shape', '%s: unexpected term `%s` in the digit comparison' % (fname, X.c_text(x)[:60]))
+        rec(e)
+        key = 'digits:%s' % (sizes[0] if len(sizes) == 1 else '?')
+        inst.append(key)
+        if len(sizes) != 1:
+            probs.setdefault(key, '%s: the digit comparison does not test the digit count exactly once' % fname)
+            continue
+        n = sizes[0]
+        if sorted(i for i, _ in digs) != list(range(n)):
+            probs.setdefault(key, '%s: a constant compared digit by digit has %d digit comparison(s) (%s) but the PyLong must have size %d to be equal: '
+                             'the number of digits tested and the required digit count disagree' % (fname, len(digs), sorted(i for i, _ in digs), n))
+        for i, sh in digs:
+            if sh != i:
+                probs.setdefault(key + ':shift%d' % i, '%s: digit %d is compared with bits starting at %s*PyLong_SHIFT of the constant' % (fname, i, sh))
+    return inst, probs
+
+
+def inplace_pair_problems(text):
+    """`inplace ? A : B` -> (instances, {key: msg})"""
+    inst, probs = [], {}
+    t = strip_c_comments(text)
+    for m in re.finditer(r'\binplace\s*\?\s*([A-Za-z_]\w*)\s*(?:\([^()]*\))?\s*:\s*([A-Za-z_]\w*)', t):
+        a, b = m.group(1), m.group(2)
+        key = 'pair:%s/%s' % (a, b)
+        inst.append(key)
+        if 'InPlace' not in a or a.replace('InPlace', '') != b:
+            probs[key] = ('`inplace ? %s : %s`: the in-place variant must be selected when the flag is true and the plain one otherwise (x += c on a mutable object must call '
+                          '__iadd__, x + c must not)' % (a, b))
+    return inst, probs
+
+
+def rule_fast(ctx, points, trees, floor=275):
+    r = Rule('C02-FAST', 'expanded PyLongBinop / PyFloatBinop / PyLongCompare fast paths, abstract walk over the sign domain of the object operand and the constant: the operation '
+             'returned is `left <C operator of the Python operator> right` with the constant and the object on the sides the order says, magnitudes get the object\'s sign, the '
+             'zero shortcuts equal the arithmetic identity, predicates test the object operand, PyLongCompare decides equality like the integers, in-place pairs are not swapped', floor)
+    done = set()
+    reported = {}
+
+    def violate(key, msg, line=0):
+        # one finding per (section, function kind, kind of deviation): the construct key names the first operator/order it was seen for
+        parts = key.split(':')
+        gen = re.sub(r'\(op=\w+,order=\w+,ret=\w+\)', '', key)
+        gen = re.sub(r'InPlace\w+/PyNumber_\w+|PyNumber_\w+/PyNumber_InPlace\w+', 'pair', gen)
+        if gen not in reported:
+            reported[gen] = 1
+            r.violate(key, REL_C, line, msg)
+        else:
+            reported[gen] += 1
+    for p in points:
+        k0 = (p.section, p.op, p.order, p.ret_obj)
+        if k0 in done:
+            continue
+        done.add(k0)
+        text = P.tpl_expand(trees[(p.section, 'impl')], dict(p.context))
+        funcs = fast_functions(text)
+        base = '%s(op=%s,order=%s,ret=%s)' % (p.section, p.op, p.order, 'object' if p.ret_obj else 'bint')
+        pyval = 'op2' if p.order == 'CObj' else 'op1'
+        # ---- PAIR
+        inst, probs = inplace_pair_problems(text)
+        for k in inst:
+            r.inst('%s:%s' % (base, k), sample='%s: %s' % (base, k))
+        for k, m in probs.items():
+            violate('%s:%s' % (base, k), '%s: %s' % (base, m))
+        if p.cname not in funcs:
+            r.info('%s: entry %s not found in the expansion (reported by C02-P3)' % (base, p.cname))
+            continue
+        # ---- OBJ: the entry function type-tests the object operand
+        entry_params, entry_body = funcs[p.cname]
+        tests = re.findall(r'\bPy(?:Long|Float)_CheckExact\(\s*(\w+)\s*\)', entry_body)
+        r.inst(base + ':objtest', sample='%s: %s type-tests %s' % (base, p.cname, sorted(set(tests))))
+        for t in sorted(set(tests)):
+            if t != pyval:
+                violate(base + ':objtest', '%s: the entry function %s applies Py*_CheckExact to %s, but with order %s the Python object operand is %s: the constant is unpacked as '
+                        'if it were the variable operand' % (base, p.cname, t, p.order, pyval))
+        sign3 = [(s, None) for s in (0, 1, -1)]
+        sign9 = [(s, c) for s in (0, 1, -1) for c in (0, 1, -1)]
+        for fname, (params, body) in sorted(funcs.items()):
+            is_cmp = p.section == 'PyLongCompare'
+            if fname.startswith('__Pyx_Fallback_'):
+                continue
+            objparam = 'float_val' if 'float_val' in params else pyval
+            scen = sign9 if (is_cmp or p.op == 'Rshift') else sign3
+            try:
+                problems, events, paths, results = walk_function(fname, params, body, p.op, p.order, scen, objparam, p.section == 'PyFloatBinop')
+            except _FastGiveUp as e:
+                raise AnalysisError('C02-FAST: %s of %s is outside the modelled C subset: %s' % (fname, base, e))
+            ops = sorted({e[1] for e in events if e[0] == 'operation'})
+            zs = sorted({e[1] for e in events if e[0] == 'zero-shortcut'})
+            r.inst('%s:%s' % (base, fname), sample='%s: %s, %d paths, operations %s, zero shortcuts %s' % (base, fname, paths, ops, zs),
+                   nontrivial=bool(ops or zs or is_cmp))
+            for k, m in sorted(problems.items()):
+                violate('%s:%s:%s' % (base, fname.replace(p.cname, '$'), k), '%s: %s' % (base, m))
+            if is_cmp and fname == p.cname:
+                for k, m in sorted(compare_problems(fname, results, p.op).items()):
+                    violate('%s:%s' % (base, k), '%s: %s' % (base, m))
+                inst, dp = digit_compare_problems(fname, body)
+                for k in inst:
+                    r.inst('%s:%s' % (base, k), sample='%s: %s' % (base, k))
+                for k, m in sorted(dp.items()):
+                    violate('%s:%s' % (base, k), '%s: %s' % (base, m))
+    more = {k: n for k, n in reported.items() if n > 1}
+    if more:
+        r.info('deviations also found for further operator/order instantiations: %s' % ', '.join('%s (%d)' % kv for kv in sorted(more.items())))
+    # positive control: a subtraction with the operands bound the other way round
+    from . import pC15 as X
+    pc = '{ const long a = intval; long b; const digit* digits = __Pyx_PyLong_Digits(op1); b = (long) digits[0]; if (!__Pyx_PyLong_IsPos(op1)) b *= -1; { long x; x = a - b; return PyLong_FromLong(x); } }'
+    w = FastWalk('pc', ['op1', 'op2', 'intval'], X.parse_c_function_body(pc), 'Subtract', 'ObjC', 1, None)
+    w.run()
+    pc2 = '{ long a; const long b = intval; const digit* digits = __Pyx_PyLong_Digits(op1); a = (long) digits[0]; if (__Pyx_PyLong_IsPos(op1)) a *= -1; { long x; x = a - b; return PyLong_FromLong(x); } }'
+    w2 = FastWalk('pc2', ['op1', 'op2', 'intval'], X.parse_c_function_body(pc2), 'Subtract', 'ObjC', 1, None)
+    w2.run()
+    r.positive_control('oper:operands' in w.problems and 'oper:sign' in w2.problems, 'exchanged operands of a subtraction and a sign applied to positive objects are reported')
+    return r
+
+
+# ================================================================================================================= C02-ORDER
+# Python side <-> template: optimise_numeric_binop reports `order` ('CObj' / 'ObjC') and the consumers pass (arg0, arg1) as (op1, op2).  The template of
+# that order unpacks ONE of op1 / op2 as the variable operand (the argument of Py{Long,Float}_CheckExact in the entry function).  On every path of the
+# decision function the constant is arg0 or arg1; the operand the template unpacks must be the OTHER one.
+class _Role(P.Obj):
+    pass
+
+
+def decider_order_paths(fn, fvar, op, is_float, ret_obj):
+    """-> [(index of the parameter (0: arg0, 1: arg1) that is the constant, order string)] for the paths that select a fast path"""
+    ps = [a.arg for a in fn.args.args]
+    p_op, p_ret = ps[0], ps[2]
+    # the local that holds the constant: its .value feeds the first extra argument
+    const_name = None
+    for s in walk_no_nested(fn):
+        if isinstance(s, ast.Call) and isinstance(s.func, ast.Attribute) and s.func.attr == 'append' and s.args and isinstance(s.args[0], ast.Call):
+            for k in s.args[0].keywords:
+                if k.arg == 'value' and isinstance(k.value, ast.Attribute) and isinstance(k.value.value, ast.Name):
+                    const_name = const_name or k.value.value.id
+    if const_name is None:
+        raise AnalysisError('%s: the local holding the constant operand (value=<x>.value of the first extra argument) was not found' % fn.name)
+
+    def on_stmt(s, ev, events):
+        if isinstance(s, ast.Assign) and isinstance(s.value, ast.Call):
+            for k in s.value.keywords:
+                if k.arg == 'context':
+                    d = None
+                    if isinstance(k.value, ast.Call) and isinstance(k.value.func, ast.Name) and k.value.func.id == 'dict':
+                        d = {kk.arg: kk.value for kk in k.value.keywords}
+                    elif isinstance(k.value, ast.Dict):
+                        d = {tables.literal(kk): vv for kk, vv in zip(k.value.keys, k.value.values)}
+                    if d and 'order' in d:
+                        try:
+                            events.append(('order', ev.ev(d['order'])))
+                        except P.Unknown:
+                            events.append(('order', None))
+    env0 = {p: P.UNKNOWN for p in ps}
+    env0[p_op] = op
+    env0[p_ret] = P.Obj(is_pyobject=ret_obj)
+    env0[ps[3]] = _Role(_index=0)
+    env0[ps[4]] = _Role(_index=1)
+    env0[fvar] = is_float
+    env0['__fixed__'] = (fvar,)
+    out = []
+    for res in P.enumerate_paths(fn, env0, on_stmt):
+        r = res.returned
+        if r is None or r[0] != 'return' or r[1] is None or (isinstance(r[1], ast.Constant) and r[1].value is None):
+            continue
+        orders = [e[1] for e in res.events if e[0] == 'order']
+        c = res.env.get(const_name)
+        if len(orders) != 1 or orders[0] is None or not isinstance(c, _Role):
+            raise AnalysisError('%s: operand order / constant operand of a fast path is not decided on some path' % fn.name)
+        out.append((c._index, orders[0]))
+    return out
+
+
+def rule_order(ctx, fn, fvar, points, trees, floor=68):
+    r = Rule('C02-ORDER', 'operand order: on every path of optimise_numeric_binop the constant is arg0 or arg1; the template instantiated for the reported order '
+             'unpacks (type-tests) the OTHER operand as the variable one', floor)
+    done = set()
+    reported = set()       # one finding per (section, constant position, order): the same decision is taken for every operator
+    for p in points:
+        k0 = (p.section, p.op, p.is_float, p.ret_obj)
+        if k0 in done:
+            continue
+        done.add(k0)
+        paths = decider_order_paths(fn, fvar, p.op, p.is_float, p.ret_obj)
+        for cidx, order in sorted(set(paths)):
+            key = '%s(op=%s,ret=%s):const=arg%d:order=%s' % (p.section, p.op, 'object' if p.ret_obj else 'bint', cidx, order)
+            ctxd = dict(p.context)
+            ctxd['order'] = order
+            try:
+                text = strip_c_comments(P.tpl_expand(trees[(p.section, 'impl')], ctxd))
+            except (P.Unknown, AnalysisError) as e:
+                raise AnalysisError('C02-ORDER: template %s cannot be expanded for order %r: %s' % (p.section, order, e))
+            funcs = c_functions(text)
+            tested = set()
+            for name, (params, b0, b1) in funcs.items():
+                if name.startswith('__Pyx_Py') and not name.startswith('__Pyx_Fallback'):
+                    tested |= set(re.findall(r'\bPy(?:Long|Float)_CheckExact\(\s*(op[12])\s*\)', text[b0:b1 + 1]))
+            r.inst(key, sample='%s: the template unpacks %s' % (key, sorted(tested)))
+            want = 'op2' if cidx == 0 else 'op1'
+            if not tested:
+                r.info('%s: no Py*_CheckExact(opN) in the expansion' % key)
+                continue
+            gen = (p.section, cidx, order)
+            if tested != {want} and gen not in reported:
+                reported.add(gen)
+                r.violate(key, REL_OPT, fn.lineno,
+                          '%s: when the constant is the %s operand (arg%d) %s selects order %r, whose template unpacks %s as the variable operand - that is the constant: '
+                          '`x - c` is computed as `c - x` (or the constant object is unpacked instead of x)' % (
+                              p.section, 'first' if cidx == 0 else 'second', cidx, fn.name, order, ' / '.join(sorted(tested))))
+    pc_fn = ast.parse(
+        "def f(operator, node, ret_type, arg0, arg1):\n"
+        "    is_float = isinstance(arg0, ExprNodes.FloatNode)\n"
+        "    if isinstance(arg1, X):\n"
+        "        numval = arg1\n        arg_order = 'CObj'\n"
+        "    else:\n        numval = arg0\n        arg_order = 'ObjC'\n"
+        "    extra_args = []\n"
+        "    extra_args.append(B(numval.pos, value=numval.value))\n"
+        "    u = load_cached('a', 'b', context=dict(op=operator, order=arg_order))\n"
+        "    c = 'n'\n    t = 1\n"
+        "    return c, u, extra_args, t\n").body[0]
+    got = set(decider_order_paths(pc_fn, 'is_float', 'Add', False, True))
+    r.positive_control(got == {(1, 'CObj'), (0, 'ObjC')}, 'a decision function that reports CObj for a constant second operand is seen as such')
+    return r
+
+
+# ================================================================================================================= C02-JOIN
+# Cython/Utility/__init__.py pylong_join(count, digits_ptr, join_type) builds the C expression that assembles a C integer from PyLong digits.  The
+# function is a pure string builder: it is folded with the checker's evaluator for count = 1..4 (table extraction by constant folding) and the
+# resulting C expression is decided structurally: digit i is shifted left by exactly i * PyLong_SHIFT, every digit 0..count-1 occurs once, the
+# parts are combined with | only.
+def rule_join(ctx, floor=4):
+    from ..engine import cexpr
+    r = Rule('C02-JOIN', 'pylong_join(count, ...) (folded for count 1..4): in the generated C expression digit i is shifted left by i * PyLong_SHIFT, each digit of 0..count-1 '
+             'occurs exactly once, parts are joined with |', floor)
+    rel = 'Cython/Utility/__init__.py'
+    tree = ctx.parse(rel)
+    fn = tables.find_function(tree, 'pylong_join')
+    if fn is None:
+        raise AnalysisError('%s: pylong_join not found' % rel)
+
+    def fold(count):
+        params = [a.arg for a in fn.args.args]
+        env = {}
+        for p_, d in zip(params[len(params) - len(fn.args.defaults):], fn.args.defaults):
+            env[p_] = P.Ev({}).ev(d)
+        env[params[0]] = count
+        ev = P.Ev(env)
+        for s in fn.body:
+            if isinstance(s, ast.Expr) and isinstance(s.value, ast.Constant):
+                continue
+            if isinstance(s, ast.Return):
+                return ev.ev(s.value)
+            if isinstance(s, ast.Assign) and len(s.targets) == 1 and isinstance(s.targets[0], ast.Name):
+                env[s.targets[0].id] = ev.ev(s.value)
+                continue
+            raise AnalysisError('pylong_join: statement kind %s is outside the folded subset' % type(s).__name__)
+        raise AnalysisError('pylong_join has no return')
+
+    def shifts(text, count):
+        """-> {digit index: shift count in units of PyLong_SHIFT} or a problem string"""
+        t = re.sub(r'\(\s*(?:unsigned\s+)?(?:long|PY_LONG_LONG|unsigned)(?:\s+long)?\s*\)', '', text)      # casts
+        t = t.replace('PyLong_SHIFT', 'SHIFTUNIT')
+        try:
+            e = cexpr.parse(t)
+        except cexpr.ParseError as ex:
+            return 'the generated expression `%s` cannot be parsed (%s)' % (text[:80], ex)
+        found = {}
+
+        def rec(x, sh):
+            k = x[0]
+            if k == 'bin' and x[1] == '|':
+                return rec(x[2], sh) or rec(x[3], sh)
+            if k == 'bin' and x[1] == '<<':
+                r_ = x[3]
+                if r_ == ('id', 'SHIFTUNIT'):
+                    n = 1
+                elif r_[0] == 'bin' and r_[1] == '*' and ('id', 'SHIFTUNIT') in (r_[2], r_[3]):
+                    o = r_[3] if r_[2] == ('id', 'SHIFTUNIT') else r_[2]
+                    if o[0] != 'num':
+                        return 'shift by a non-constant multiple of PyLong_SHIFT'
+                    n = o[1]
+                elif r_[0] == 'tern':
+                    # `<< (n * PyLong_SHIFT < 8 * sizeof(T) ? n * PyLong_SHIFT : 0)`: the guarded form, same shift where it matters
+                    return rec(('bin', '<<', x[2], r_[2]), sh)
+                else:
+                    return 'shift by something other than a multiple of PyLong_SHIFT'
+                return rec(x[2], sh + n)
+            if k == 'cast':
+                return rec(x[2], sh)
+            if k == 'idx' or (k == 'call'):
+                return 'unexpected call/index form'
+            if k == 'id':
+                m = re.fullmatch(r'DIGIT(\d+)', x[1])
+                if not m:
+                    return 'unexpected operand %s' % x[1]
+                i = int(m.group(1))
+                if i in found:
+                    return 'digit %d occurs twice' % i
+                found[i] = sh
+                return None
+            return 'unexpected operator %s' % (x[1] if len(x) > 1 else k)
+        t2 = re.sub(r'\b\w+\s*\[\s*(\d+)\s*\]', lambda m: 'DIGIT' + m.group(1), t)
+        try:
+            e = cexpr.parse(t2)
+        except cexpr.ParseError as ex:
+            return 'the generated expression `%s` cannot be parsed (%s)' % (text[:80], ex)
+        pr = rec(e, 0)
+        if pr:
+            return pr
+        return found
+    bad_seen = False
+    for count in (1, 2, 3, 4):
+        key = 'pylong_join(%d)' % count
+        try:
+            text = fold(count)
+        except P.Unknown as e:
+            raise AnalysisError('pylong_join(%d) cannot be folded: %s' % (count, e))
+        if not isinstance(text, str):
+            raise AnalysisError('pylong_join(%d) does not fold to a string' % count)
+        r.inst(key, sample='%s = %s' % (key, text[:100]))
+        res = shifts(text, count)
+        if isinstance(res, str):
+            r.violate(key, rel, fn.lineno, '%s: %s' % (key, res))
+        elif res != {i: i for i in range(count)}:
+            r.violate(key, rel, fn.lineno, '%s generates `%s`: digit -> shift (in units of PyLong_SHIFT) is %s, required %s - the integer is assembled from its digits in the '
+                      'wrong positions' % (key, text[:120], res, {i: i for i in range(count)}))
+    pc = shifts('(((((unsigned long)digits[0]) << PyLong_SHIFT) | (unsigned long)digits[1]))', 2)
+    r.positive_control(pc == {0: 1, 1: 0}, 'a join with the digits in ascending shift order is seen as digit 0 shifted by 1')
+    return r
+
+
+# ================================================================================================================= C02-MANT
+# Integers are converted to double / divided as doubles in the fast paths only where that is exact: |x| <= 2**53 (DBL_MANT_DIG = 53, IEEE 754 binary64;
+# reference: sys.float_info.mant_dig of the interpreter).  Every power-of-two bound `1 << K` (and every `N * PyLong_SHIFT < K` digit bound) that guards such
+# a conversion in the TrueDivide / float templates must not exceed the mantissa width.
+def rule_mant(ctx, points, trees, floor=110):
+    import sys
+    mant = sys.float_info.mant_dig
+    r = Rule('C02-MANT', 'exactness guards of the int -> double fast paths (PyLongBinop TrueDivide, PyFloatBinop): every `1 << K` / `N * PyLong_SHIFT < K` bound has K <= %d '
+             '(the mantissa width of a double)' % mant, floor)
+    done = set()
+    _viol = r.violate
+    seen_gen = set()
+
+    def violate(key, *a, **k):
+        gen = re.sub(r'\(op=\w+,order=\w+\)', '', key)
+        if gen not in seen_gen:
+            seen_gen.add(gen)
+            _viol(key, *a, **k)
+    r.violate = violate
+    for p in points:
+        if not (p.section == 'PyFloatBinop' or p.op == 'TrueDivide'):
+            continue
+        k0 = (p.section, p.op, p.order)
+        if k0 in done:
+            continue
+        done.add(k0)
+        text = strip_c_comments(P.tpl_expand(trees[(p.section, 'impl')], dict(p.context)))
+        base = '%s(op=%s,order=%s)' % (p.section, p.op, p.order)
+        for m in re.finditer(r'\(\s*(?:PY_LONG_LONG|long long|long|unsigned long)\s*\)\s*1\s*<<\s*(\d+)', text):
+            k = int(m.group(1))
+            key = '%s:1<<%d' % (base, k)
+            r.inst(key, sample=key)
+            if k > mant:
+                r.violate(key, REL_C, 0, '%s converts integers up to 2**%d to double in the fast path; a double holds %d bits exactly: the result is rounded differently from '
+                          'CPython\'s exact int/float arithmetic' % (base, k, mant))
+        for m in re.finditer(r'PyLong_SHIFT\s*(<|<=)\s*(\d+)', text):
+            k = int(m.group(2)) + (1 if m.group(1) == '<=' else 0)
+            key = '%s:SHIFT<%d' % (base, k)
+            r.inst(key, sample=key)
+            if k > mant:
+                r.violate(key, REL_C, 0, '%s admits digit counts with more than %d bits for the double fast path (bound %d)' % (base, mant, k))
+        for m in re.finditer(r'(<=?)\s*(\d+)\s*/\s*PyLong_SHIFT', text):
+            k = int(m.group(2)) + 1
+            key = '%s:digits<=%d/SHIFT' % (base, k - 1)
+            r.inst(key, sample=key)
+            if k > mant:
+                r.violate(key, REL_C, 0, '%s admits more than %d bits of digits for the double fast path (`%s %s / PyLong_SHIFT`)' % (base, mant, m.group(1), m.group(2)))
+    r.positive_control(mant == 53, 'the reference mantissa width is 53')
+    return r
+
+
+# ================================================================================================================= C02-INPL
+def rule_inplace_flag(ctx, fn, fvar, points, floor=30):
+    """the `inplace` extra argument: true exactly when the operation node is an in-place operation"""
+    r = Rule('C02-INPL', 'the in-place flag passed to the fast path equals the `inplace` attribute of the operation node (false for a plain binary operation, true for an '
+             'augmented assignment; false for comparison nodes)', floor)
+    ix = ctx.index
+    exn = ix.mod('ExprNodes')
+    tab = tables.module_assign(exn.tree, 'binop_node_classes')
+    classes = {}
+    for k, v in zip(tab.keys, tab.values):
+        if isinstance(k, ast.Constant) and isinstance(v, ast.Name):
+            classes[v.id] = ix.cls('ExprNodes', v.id)
+    cmp_cls = ix.cls('ExprNodes', 'PrimaryCmpNode')
+    sym_class = {}
+    for k, v in zip(tab.keys, tab.values):
+        if isinstance(k, ast.Constant) and isinstance(v, ast.Name):
+            sym_class[k.value] = (v.id, classes[v.id])
+    op_symbol = {'Add': '+', 'Subtract': '-', 'Multiply': '*', 'Remainder': '%', 'TrueDivide': '/', 'FloorDivide': '//', 'Divide': '/', 'Or': '|', 'Xor': '^',
+                 'And': '&', 'Rshift': '>>', 'Lshift': '<<'}
+    done = set()
+    reported = set()
+    for p in points:
+        k0 = (p.op, p.is_float, p.ret_obj)
+        if k0 in done:
+            continue
+        done.add(k0)
+        if p.op in ('Eq', 'Ne'):
+            cands = [('PrimaryCmpNode', cmp_cls)]
+        elif op_symbol.get(p.op) in sym_class:
+            cands = [sym_class[op_symbol[p.op]]]
+        else:
+            r.info('operator %s has no node class in binop_node_classes' % p.op)
+            continue
+        for cname, cls in cands:
+            is_cmp = cls is cmp_cls
+            for want in ((False, True) if not is_cmp else (False,)):
+                st = node_default_state(ix, cls)
+                if 'inplace' not in st and not is_cmp:
+                    continue
+                if not is_cmp:
+                    st['inplace'] = want
+                try:
+                    paths = flag_values(ix, fn, fvar, p.op, p.is_float, p.ret_obj, cls, st)
+                except AnalysisError:
+                    raise
+                key = 'inplace:%s:%s:%s' % (p.op, 'float' if p.is_float else 'int', cname) + (':aug' if want else '')
+                if key in done:
+                    continue
+                done.add(key)
+                vals = {repr(v[1][1]) if len(v[1]) > 1 else 'missing' for v in paths}
+                r.inst(key, sample='%s -> in-place argument %s' % (key, sorted(vals)), nontrivial=bool(paths))
+                for order, extra in paths:
+                    if len(extra) < 2 or extra[1] is P.UNKNOWN:
+                        continue
+                    if bool(extra[1]) != bool(want) and (p.is_float, want, is_cmp) not in reported:
+                        reported.add((p.is_float, want, is_cmp))
+                        r.violate(key, REL_OPT, fn.lineno, '%s passes inplace=%r for a %s whose inplace attribute is %r: %s' % (
+                            fn.name, extra[1], cname, want,
+                            'a plain `x %s c` calls the in-place slot of an arbitrary object (nb_inplace_*), mutating x' % p.op if not want
+                            else 'an augmented assignment on a mutable object does not use its __i*__ method'))
+                        break
+    return r
